@@ -64,7 +64,7 @@ def run_real(cases, repeat=1, workdir=None, driver=None):
         if repeat > 1:
             cmd += ['--repeat', str(repeat)]
         try:
-            p = subprocess.run(cmd, capture_output=True, text=True, timeout=60 + len(todo) // 20)
+            p = subprocess.run(cmd, stdin=subprocess.DEVNULL, capture_output=True, text=True, timeout=60 + len(todo) // 20)
             stdout, rc = p.stdout, p.returncode
         except subprocess.TimeoutExpired as e:
             stdout, rc = (e.stdout or b'').decode() if isinstance(e.stdout, bytes) else (e.stdout or ''), 'timeout'
